@@ -6,6 +6,7 @@ import ChessVerif.Spec.Rules
 import ChessVerif.Lemmas.Attack
 import ChessVerif.Lemmas.Refine
 import ChessVerif.Lemmas.Material
+import ChessVerif.Lemmas.WfHyp
 namespace Chess.Props
 
 theorem contains_iff_count (k : Nat) (l : List Nat) : l.contains k = decide (1 ≤ countEq k l) := by
@@ -102,12 +103,15 @@ theorem C07_material (p : Position) (hb : ∀ x, x ∈ p.board → x ≤ 12)
   unfold enoughMaterial
   rw [material_eq p.board hb hc]
 
-/-- the full statement for the geometric predicates (kept visible): both halves are proved above (`C07_check`,
-    `C07_material`) under explicit hypotheses that `Spec.wf` implies; the driver evaluates those hypotheses at every
-    state line, so the remaining gap is only the implication wf ⇒ hypotheses -/
-def C07_geometry_Statement : Prop :=
-  ∀ (T : ZTable) (s : String), let p := ofFen T s
-    Spec.wf ⟨p.board, p.side, p.castling, p.ep, p.halfmove, 1⟩ = true →
-    isInCheck p p.side = Spec.inCheck p.board p.side ∧ enoughMaterial p = !Spec.insufficientMaterial p.board
+/-- C07 (geometric predicates, FULL): on every well-formed position (the rules-level predicate `Spec.wf` on the six FEN
+    fields — the quantifier of the property) and for either side, the engine's `is_in_check` equals the rules' "king
+    attacked", and its material test equals "bare kings or a single minor piece".  No run-time hypothesis is left:
+    board shape, king uniqueness, non-adjacent kings and count bounds are derived from `Spec.wf` (Lemmas/WfHyp.lean). -/
+theorem C07_geometry (p : Position) (fm : Nat) (hwf : Spec.wf ⟨p.board, p.side, p.castling, p.ep, p.halfmove, fm⟩ = true)
+    (side : Nat) (hs : side ≤ 1) :
+    isInCheck p side = Spec.inCheck p.board side ∧ enoughMaterial p = !Spec.insufficientMaterial p.board := by
+  obtain ⟨hbo, _, hk, hcodes, hcnt⟩ := wf_board_hyps _ hwf
+  obtain ⟨k, hka, hkn⟩ := hk side hs
+  exact ⟨isInCheck_eq p side k hs hbo hka hkn, C07_material p hcodes hcnt⟩
 
 end Chess.Props
